@@ -242,6 +242,13 @@ fn ev_poly(rng: &mut StdRng, out: &mut Out, case: &str, sh: &Value) {
             if lenpat == "m1" {
                 p[0] = one;
             }
+            // explicit leading coefficients (p[0], q[0]): 1 or a random unit
+            if let [lp, lq] = lenpat.as_bytes() {
+                if lenpat != "eq" && lenpat != "m1" {
+                    p[0] = if *lp == b'1' { one } else { unit(rng, &n) };
+                    q[0] = if *lq == b'1' { one } else { unit(rng, &n) };
+                }
+            }
             (p, q)
         }
         "from_roots" => (coefs(rng, &n, len, pat), vec![]),
